@@ -137,6 +137,33 @@ def r12b(F):
 			# discover nothing: every field must be covered
 			np_ = {}
 		out += P11_field_coverage(F, '12.b', adt, roots, np_)
+	# tighter: each writer on its own reads every persisted field in its OWN body or closures (not merely in some callee, which may read the
+	# field for an unrelated purpose); the few fields that are serialized through an accessor are listed with the accessor
+	VIA_ACCESSOR = {
+		(L + 'ln::channelmanager::PeerState', 'closed_channel_monitor_update_ids'): 'written by the ChannelManager writer while iterating the peer state (a helper reads it)',
+		(L + 'ln::channelmanager::PeerState', 'is_connected'): 'only decides whether the peer is serialized (ok_to_remove / serializable peer count)',
+		(L + 'routing::gossip::NetworkGraph', 'last_rapid_gossip_sync_timestamp'): 'read through get_last_rapid_gossip_sync_timestamp()',
+	}
+	n = 0
+	for adt, roots, np_ in COVERAGE:
+		np_ = np_ or {}
+		try:
+			a = F.adt(adt)
+		except AnchorMissing:
+			continue
+		fields = [rec[1] for rec in F.adts[a] if rec[1] != '-']
+		for r in roots:
+			try:
+				fam = set(F.family(r))
+			except AnchorMissing:
+				continue
+			for f in fields:
+				if f in np_ or (adt, f) in VIA_ACCESSOR:
+					continue
+				n += 1
+				if not any(x[0] in fam for x in F.fieldacc.get('%s.%s' % (a, f), [])):
+					out.append(Result('12.b', False, 'unwritten-by:%s.%s@%s' % (adt.rsplit('::', 1)[-1], f, r.split(' as ')[0].rsplit('::', 1)[-1].strip('<>')), 'field %s.%s is not read in the body of the writer %s (it may still be read by a callee for another purpose): it is no longer serialized by this writer and comes back as its default after a reload' % (adt.rsplit('::', 1)[-1], f, r.rsplit('::', 2)[-2] if '::' in r else r), 1, where=F.where(r)))
+	out.append(Result('12.b', n >= 200, ('ok:' if n >= 200 else 'floor:') + 'own-body-coverage', '%d (writer, field) pairs checked against the writer\'s own body' % n, n))
 	return out
 
 RULES.append(('12.b', 'every field of the persisted structs is read under its writer or is on the reviewed not-persisted list', r12b))
